@@ -7,7 +7,7 @@ from fastavro._validate_common import ValidationError
 from fastavro.write import Writer
 from hypothesis import strategies as st
 
-from .. import gen, bincase, tagged
+from .. import gen, bincase, tagged, logicalcase
 from ..ref import model as M
 from ..ref import binary as B
 from ..runner import Check, Violation, guard, outcome, HarnessError
@@ -150,7 +150,7 @@ class C10(Check):
     )
     assumptions = ["float-typed leaves representable in the target width", "tuples of length != 2 at union positions are not generated"]
     required_labels = ["expected:True", "expected:False", "strict", "raise_errors", "no-tuple-notation", "rejected-by-writer", "accepted-roundtrip",
-                       "mut:wrong-type", "mut:out-of-range", "mut:bool-for-int", "mut:wrong-fixed-size", "mut:unknown-symbol", "mut:non-string-key", "mut:missing-field", "mut:wrong-hint", "strict-missing-nullable", "appending-writer", "logical-values"]
+                       "mut:wrong-type", "mut:out-of-range", "mut:bool-for-int", "mut:wrong-fixed-size", "mut:unknown-symbol", "mut:non-string-key", "mut:missing-field", "mut:wrong-hint", "strict-missing-nullable", "appending-writer", "logical-values", "logical-generated"]
     quick = (5000, 1)
     thorough = (10000, 16)
 
@@ -166,6 +166,12 @@ class C10(Check):
         @st.composite
         def cases(draw):
             d = gen.D(draw)
+            if d.p(0.08):
+                # unions of logical branches: the oracle is the reference predicate extended with the logical domains
+                c = logicalcase.logical_union_case(d)
+                n2, t2 = M.resolve(c["schema"])
+                return {"schema": c["schema"], "datum": c["datum"], "mutation": None if S.conforms(n2, t2, c["datum"]) else "wrong-type", "strict": False, "raise_errors": d.p(0.5),
+                        "tuple_notation": True, "parsed": c["parsed"], "append": d.p(0.3), "logical": True, "logical_expect": S.conforms(n2, t2, c["datum"]), "generated": True}
             ir, table, js = gen.build_schema(d, feat)
             gen.check_truth(ir, table, js)
             tn = not d.p(0.25)
@@ -216,6 +222,8 @@ class C10(Check):
         if case.get("logical"):
             # logical-type values: the canonical Python type (or the underlying raw value) conforms; oracle given per case
             labels.add("logical-values")
+            if case.get("generated"):
+                labels.add("logical-generated")
             want = case["logical_expect"]
         else:
             want = B.conforms(node, table, datum, tuple_notation=tn, strict=strict)
